@@ -32,7 +32,11 @@ impl SparsityStructure {
         let csc = if let Ok(tocsc) = sparsity.getattr("tocsc") {
             tocsc.call0()?
         } else {
-            sparsity.clone()
+            // array_like pattern (nested lists, numpy array): build the CSC structure from it
+            sparsity
+                .py()
+                .import("scipy.sparse")?
+                .call_method1("csc_matrix", (sparsity,))?
         };
 
         // Get shape
